@@ -42,6 +42,7 @@ class SimClock:
         self.reads = 0
         self.lib_reads = 0
         self.jumps = 0
+        self.jumped_s = 0.0
         self.slept = 0.0
 
     def _read(self):
@@ -54,6 +55,7 @@ class SimClock:
     def jump(self, wall_delta, mono_delta=None):
         """mono_delta defaults to max(wall_delta, 0): the wall clock may step backwards, the monotonic one never does."""
         self.jumps += 1
+        self.jumped_s += abs(wall_delta)
         self.wall += wall_delta
         self.mono += max(wall_delta, 0.0) if mono_delta is None else max(mono_delta, 0.0)
 
